@@ -57,9 +57,11 @@ class Dsl:
             if isinstance(st, ast.Expr) and isinstance(st.value, ast.Constant):
                 continue
             if isinstance(st, ast.Try):
+                self._not_read(st)
                 continue  # value probing for the argument checks
             if isinstance(st, ast.If):
                 if all(isinstance(x, (ast.Raise, ast.Assign, ast.If, ast.Expr)) for x in st.body) and any(isinstance(x, ast.Raise) for x in ast.walk(st)):
+                    self._not_read(st)
                     continue
                 if any('logger.' in unparse(x) for x in st.body):
                     continue
@@ -71,6 +73,14 @@ class Dsl:
                 self.ret = self.ev(st.value)
                 return
             raise AnalysisError(f'{self.f.file}:{st.lineno}: statement of {self.f.name} not understood: {unparse(st)[:60]}')
+
+    def _not_read(self, st: ast.stmt) -> None:
+        """a block of argument checks is skipped; a name it assigns is harmless while it stays out of the returned formula"""
+        for n in ast.walk(st):
+            if isinstance(n, ast.Name) and isinstance(n.ctx, ast.Store):
+                ph = sp.Symbol(f'?{n.id}#{len(self.unknown)}', real=True)
+                self.unknown[ph] = f'{self.f.file}:{st.lineno}: {n.id} is assigned in a block of argument checks that the rule does not read'
+                self.env[n.id] = ph
 
     def ev(self, e: ast.expr) -> sp.Expr:
         if isinstance(e, ast.Constant):
